@@ -5,6 +5,7 @@
   (`<x>_reopen_info`, `<x>_snapshot_valid`; `closedBytes_eq` / `stale_ignored` come from SfProofs/Small2Session.lean).
 -/
 import SfProofs.AbsWriteBridgeSmall
+import SfProofs.AbsWriteBridgeRun
 namespace Sf.AbsWriteBridge.Small
 open Sf Sf.AbsWrite Sf.AbsWriteBridge Sf.Geometry
 
@@ -53,7 +54,7 @@ theorem small_pred_good (K : Cont) (G : List Small2.WOp → Prop) (L : Laws K G)
     intro j h1 h2
     unfold infoOk; simp [h1, h2]
   refine {
-    chpos := hch, block := by show 1 ≤ K.g.block; rw [L.block], calls1 := gR1, calls2 := gS1,
+    chpos := hch, block := Nat.le_of_eq L.block.symm, calls1 := gR1, calls2 := gS1,
     same := by show samples (callsOf _ ops) = samples (callsOf _ (refOps ops)); rw [gS2, gR2],
     reopened := ?_, info := ?_, rate := ?_, framesLo := ?_, framesHi := ?_, eof := ?_, more := rfl, rbLen := ?_,
     roundtrip := ?_, partition := L.closedFn _ _ _ _ (by rw [hD1, hD2]), stale := L.closedFn _ _ _ _ rfl, snaps := ?_ }
@@ -64,7 +65,7 @@ theorem small_pred_good (K : Cont) (G : List Small2.WOp → Prop) (L : Laws K G)
   · show rateOk K.g.major K.g.sr (infoOf (K.parse _)).sr = true
     rw [hp]; exact hirate
   · show ((framesOf K.g.ch (callsOf K.g.ch (refOps ops)) : Nat) : Int) ≤ (infoOf (K.parse _)).frames
-    rw [hp, hNR]; show _ ≤ ((i.frames : Nat) : Int); rw [hfr]; exact Int.le_refl _
+    rw [hp, hNR]; show _ ≤ ((i.frames : Nat) : Int); rw [hfr]
   · show (infoOf (K.parse _)).frames < ((framesOf K.g.ch (callsOf K.g.ch (refOps ops)) : Nat) : Int) + (K.g.block : Int)
     rw [hp, hNR, L.block]; show ((i.frames : Nat) : Int) < _; rw [hfr]; omega
   · show (readBack K ty _ _).1 = (infoOf (K.parse _)).frames * (K.g.ch : Int)
@@ -122,7 +123,7 @@ theorem small_pred_good (K : Cont) (G : List Small2.WOp → Prop) (L : Laws K G)
     · show (infoOf (K.parse _)).frames = _
       rw [hpj, hk, hcalls, hpg, hbefore, hfl]; show ((j.frames : Nat) : Int) = _; rw [hfrj]
     · show _ ≤ (readBack K ty _ _).1.toNat
-      rw [hk, hcalls, hpg, hbefore, hfl, hrbP, hlenP]; simp
+      rw [hk, hcalls, hpg, hbefore, hfl, hrbP, hlenP]; exact Nat.le_of_eq (Int.toNat_natCast _).symm
     · show _ ≤ (readBack K ty _ _).2.length
       rw [hk, hcalls, hpg, hbefore, hfl, hrbP]; simp only [List.length_append, hdlP, hlenP]; omega
     · show (readBack K ty _ _).2.take _ = (readBack K ty _ _).2.take _
